@@ -74,6 +74,23 @@ Theorem C16_refines_live : forall (fuel : nat) (ops : list kop), 2 <= fuel ->
   t_ops_ok live ops = true -> t_run live fuel ops = t_spec_run live ops.
 Proof. intros fuel ops Hf Hok. exact (refines nat nat Nat.eqb (tab_isref live) (tab_unwrap live) (tab_fref live) C16_instance fuel ops Hf Hok). Qed.
 
+(* "its unwrapped form (through NewType, TypeAliasType, Final, ClassVar)": for every wrapper of a
+   plain class in the catalogue the harness builds -- one and two levels deep: NewType, alias,
+   Final, ClassVar of the class; Final / ClassVar / alias of its NewType, Final / NewType of its
+   alias, NewType of alias of NewType -- the live unwrap reaches the class itself *)
+Theorem C16_unwrap_reaches_base : tabs_reach live catalogue = true.
+Proof. vm_compute. reflexivity. Qed.
+
+(* hence each of them finds the value stored under the class in a fresh context
+   (no earlier lookup that could have memoised an intermediate key) *)
+Theorem C16_wrapper_finds_base : forall (k b v fuel : nat), In (k, b) catalogue -> 2 <= fuel ->
+  t_run live fuel [OSet b v; OItem k] = [OUnit; OVal v].
+Proof. intros k b v fuel Hin Hf. exact (reach_found live catalogue C16_live_tabs_ok C16_unwrap_reaches_base k b v fuel Hin Hf). Qed.
+
+Example C16_catalogue_nontrivial :
+  length catalogue = 33 /\ In (k_NTAN0, k_B0) catalogue /\ In (k_FIN1, k_B1) catalogue /\ In (k_TAN2, k_B2) catalogue.
+Proof. vm_compute. repeat split; tauto. Qed.
+
 (* non-vacuity: an allowed history on the live family that takes every route: direct hit,
    unwrap hit (then memoised), unwrapped form before naming reference, string alias through
    the reference to its target, reference key bail-out, default, membership *)
@@ -109,3 +126,5 @@ Print Assumptions C16_lookup_pure.
 Print Assumptions C16_live_tabs_ok.
 Print Assumptions C16_instance.
 Print Assumptions C16_refines_live.
+Print Assumptions C16_unwrap_reaches_base.
+Print Assumptions C16_wrapper_finds_base.
